@@ -28,7 +28,7 @@ Definition member_of_sx (x : sx) : jmember :=
            (sx_strs (sx_nth 4 x))
            (map (fun p => (sx_str (sx_nth 0 p), sx_str (sx_nth 1 p))) (sx_list (sx_nth 5 x)))
            (sx_bool (sx_nth 6 x))
-           (match sx_list (sx_nth 7 x) with a :: _ => Some (annot_of_sx a) | [] => None end)
+           (map annot_of_sx (sx_list (sx_nth 7 x)))
            (sx_bool (sx_nth 8 x))
            (sx_strs (sx_nth 9 x)) (sx_strs (sx_nth 10 x))
            (p4_of_sx (sx_nth 11 x)) (p4_of_sx (sx_nth 12 x))
